@@ -31,6 +31,14 @@ def reencode(acc, root, b, r, d, mode):
     except Exception as e:  # noqa: BLE001
         acc.violation({"clause": "unmarshal-raises", "mode": mode, "exc": type(e).__name__, "where": impl._where(e)}, d, f"Binary.unmarshal raised {type(e).__name__}: {e}")
         return
+    # the events may come from a one-shot iterator (the command line pipes the live decoder into the encoder)
+    try:
+        chunks_it = list(ns.Binary.unmarshal(iter(r.raw)))
+    except Exception as e:  # noqa: BLE001
+        chunks_it = "ESCAPE:" + type(e).__name__
+    if chunks_it != chunks:
+        acc.violation({"clause": "unmarshal-of-iterator-differs", "mode": mode}, d, f"re-encoding the same events from an iterator gives {len(chunks_it) if isinstance(chunks_it, list) else chunks_it} chunks, from a list {len(chunks)}")
+        return
     if len(chunks) != len(r.raw):
         acc.violation({"clause": "chunk-count", "mode": mode}, d, f"{len(chunks)} chunks for {len(r.raw)} events")
         return
